@@ -172,6 +172,9 @@ def gen_frame(rng):
             for _ in range(rng.choice([0, 1, 2, 3])):
                 v = None if rng.random() < 0.12 else rng.randint(-8, 64)
                 rows.append({'id': i, 't': rng.randint(0, 24), 'obs': o, 'v': v, 'dose': None, 'dur': None})
+                if rng.random() < 0.15:
+                    # a dose noted on a measurement row (of whichever observable): still a dose of this individual
+                    rows[-1].update(dose=rng.randint(1, 20), dur=None if rng.random() < 0.4 else rng.randint(1, 8))
         for _ in range(rng.choice([0, 0, 1, 2])):
             rows.append({'id': i, 't': rng.randint(0, 24), 'obs': None, 'v': None, 'dose': rng.randint(1, 20),
                          'dur': None if rng.random() < 0.4 else rng.randint(1, 8)})
